@@ -375,6 +375,18 @@ func TestC06(t *testing.T) {
 		c := engCase{Engine: eng, Parallel: true, SendErrAt: -1, Min: rng.Range(1, 3), Timeout: time.Duration(rng.Range(50, 400)) * time.Millisecond,
 			Delay: time.Duration(rng.Range(1, 60)) * time.Millisecond, Poll: 20 * time.Millisecond}
 		c.Max = c.Min + rng.Range(1, 8)
+		switch i % 8 {
+		case 2, 3:
+			// the per-TTL listening time is shorter than the send delay and nothing answers: only the
+			// delay keeps the serial engine's probes apart
+			c.Timeout = time.Duration(rng.Range(5, 40)) * time.Millisecond
+			c.Delay = c.Timeout + time.Duration(rng.Range(20, 200))*time.Millisecond
+			c.Poll = time.Duration(rng.Range(2, 10)) * time.Millisecond
+		case 4, 5:
+			// the run ends at TTL 255, the last value the 8-bit TTL can take: exactly Min..255, once each
+			c.Max = 255
+			c.Min = rng.Range(247, 254)
+		}
 		for k := 0; k <= c.Max-c.Min; k++ {
 			d := time.Duration(0)
 			switch rng.Intn(4) {
@@ -395,7 +407,11 @@ func TestC06(t *testing.T) {
 				bad = fmt.Sprintf("probes for TTL %d and %d were emitted %s apart, less than the configured delay %s (SendProbe durations %v)", o.Sends[k-1], o.Sends[k], o.SendAt[k]-o.SendAt[k-1], c.Delay, c.SendDurs)
 			}
 		}
-		rep.Case("pacing/"+eng, fmt.Sprintf("%d|%d|%v|%v", c.Min, c.Max, c.Delay, c.SendDurs), true, nil)
+		if bad == "" && eng == "ser" && strings.HasPrefix(o.Res, "ok") && len(o.Sends) != c.Max-c.Min+1 { // (the parallel sender stops at the overall timeout)
+			bad = fmt.Sprintf("nothing answered, yet %d probes were emitted for the %d TTLs %d..%d", len(o.Sends), c.Max-c.Min+1, c.Min, c.Max)
+		}
+		rep.Case("pacing/"+eng, fmt.Sprintf("%d|%d|%v|%v|%v", c.Min, c.Max, c.Delay, c.Timeout, c.SendDurs), true, nil)
+		rep.Hit(fmt.Sprintf("pacing:%s:max255=%v:timeout<delay=%v", eng, c.Max == 255, c.Timeout < c.Delay))
 		if bad != "" {
 			rep.Violate(hx.Violation{Kind: "spec", What: "emission discipline violated: " + bad, Sig: map[string]string{"stream": "pacing", "engine": eng},
 				Replay: map[string]any{"engine": eng, "min": c.Min, "max": c.Max, "delay": c.Delay.String(), "send_durations": fmt.Sprint(c.SendDurs), "send_at": fmt.Sprint(o.SendAt)}})
